@@ -257,6 +257,7 @@ pub fn run_stress(args: &Args, mut out: Out) {
         };
         let nsteps = r.gen_range(4..30);
         let emfile_at = if r.gen_range(0..100) < emfile_pct { r.gen_range(0..nsteps) } else { usize::MAX };
+        let mut held_fds: Option<Vec<std::fs::File>> = None;
         for step in 0..nsteps {
             if step == emfile_at {
                 // ---- C12: failures to accept a connection never consume a slot ----
@@ -277,6 +278,15 @@ pub fn run_stress(args: &Args, mut out: Out) {
                     dummies.pop();
                     connect(&mut clients, c);
                     let saw_err = clients[c].sock.is_some() && wait_until(3, || count("AccAcceptErr") > errs_before || count("AccAccepted") > acc_before);
+                    if saw_err && r.gen_bool(0.25) {
+                        // the descriptor table stays exhausted: accept() fails again and again (the loop pauses after each
+                        // failure); after the fifth failure the permit is revoked while it is still exhausted -- the stop
+                        // signal must not depend on how long the loop has been failing
+                        wait_until(8, || count("AccAcceptErr") >= errs_before + 5 || count("AccAccepted") > acc_before);
+                        held_fds = Some(dummies);
+                        emit("FdExhaustHeld", 0, 0);
+                        break;
+                    }
                     drop(dummies);
                     emit("FdExhaustEnd", u64::from(saw_err), 0);
                     if clients[c].sock.is_some() {
@@ -320,7 +330,7 @@ pub fn run_stress(args: &Args, mut out: Out) {
                 std::thread::sleep(Duration::from_micros(r.gen_range(0..3000)));
             }
         }
-        let do_refill = r.gen_bool(0.5);
+        let do_refill = held_fds.is_none() && r.gen_bool(0.5);
         let t_phase = Instant::now();
         if do_refill {
             // ---- C12: after any history the full configured number can be serviced simultaneously again ----
@@ -374,6 +384,7 @@ pub fn run_stress(args: &Args, mut out: Out) {
             Ok(()) => emit("StoppedReceived", 0, 0),
             Err(_) => emit("StopTimeout", 0, 0),
         }
+        drop(held_fds.take());
         // a connect after the stop signal must not be served
         emit("LateConnect", 0, 0);
         match std::net::TcpStream::connect_timeout(&addr, Duration::from_millis(300)) {
